@@ -13,7 +13,7 @@
    the rig runs every scenario with and without a stats handler installed. *)
 From Coq Require Import List ZArith Bool.
 Import ListNotations.
-From Goat Require Import Model.Client Proofs.ClientBase Proofs.ClientInv Proofs.ClientLog Proofs.ClientLive Proofs.ClientProps.
+From Goat Require Import Model.Client Proofs.ClientBase Proofs.ClientInv Proofs.ClientLog Proofs.ClientLive Proofs.ClientProps Proofs.ClientCrash.
 Open Scope Z_scope.
 
 (* total: no reachable state has a panic in its history (the only panic the client code contains - "rCh was
@@ -45,6 +45,22 @@ Theorem C13_done_has_error : forall ls s, lrun init ls = Some s ->
     loop_alive k = false /\ is_some (s_rerr k) = true /\ k_pc k = POpen.
 Proof. intros ls s H c k Hn Hd. exact (ki_done_dead _ (cinv_call _ _ _ (proj1 (inv_reach _ _ H)) Hn) Hd). Qed.
 Print Assumptions C13_done_has_error.
+
+(* does not crash, site by site: every panic-capable operation of the client path on state that the peer or the
+   order of the goroutines controls (Proofs/ClientCrash.v lists them with file:line and the guard the code relies on:
+   A close of a closed done channel, B send on the closed rCh, C second close of rCh, D second Done() of the header
+   WaitGroup, E the explicit panic of RecvMsg) is never enabled in a reachable state. C13_total is clause E. *)
+Theorem C13_no_crash : forall ls s, lrun init ls = Some s -> ~ crash_site s.
+Proof. exact no_crash_site_l. Qed.
+Print Assumptions C13_no_crash.
+
+(* the site predicates are not empty by definition: call records that would crash exist (they are just never reached) *)
+Definition crashy (reg : bool) (l : slpc) (latch : option (mdv + cerr)) (rch : bool) : call :=
+  mkCall false 0 POpen 1 (mkChan None true) reg CtxLive l false latch rch false None None None None false false RNone ONone [] ONone.
+Example crash_sites_inhabited :
+  crash_A (crashy true LRead None false) /\ crash_B (crashy false (LHand 5) None true) /\
+  crash_C (crashy false LExit None true) /\ crash_D (crashy false LRead (Some (inr EBadMd)) false).
+Proof. unfold crash_A, crash_B, crash_C, crash_D; simpl. repeat split; eauto. Qed.
 
 (* ---------- the hypotheses are satisfiable ---------- *)
 Definition weird1 (id : Z) : env := mkEnv id (Some MdBad) (Some (mkSt 0 0)) (Some 5) (Some MdBad) false.   (* undecodable metadata, explicit OK, body *)
